@@ -20,6 +20,7 @@ var StubList = []string{
 	"time.Duration.Milliseconds: executed from SSA (signed division by 1e6)",
 	"math/rand.{New,NewSource,(*Rand).Float64}: arbitrary float in [0,1)",
 	"net/textproto.CanonicalMIMEHeaderKey: native on concrete keys",
+	"net/http.Error(w, msg, code): w.WriteHeader(code) then w.Write(msg+LF) (header tweaks of the real function omitted)",
 	"encoding/json.Unmarshal(verifJSONDoc(s), &string): yields s or an arbitrary error",
 	"utf8 decoding in range-over-string: exact for ASCII lead bytes, over-approximated (arbitrary rune >= 0x80, width 1..4) otherwise",
 }
@@ -106,6 +107,19 @@ func (ex *Exec) ErrorsIs(err, target IfaceVal) bool {
 	}
 	ex.internal("errors.Is: chain too long")
 	return false
+}
+
+// InvokeMethod calls the method `name` of the dynamic value of an interface.
+func (ex *Exec) InvokeMethod(recv IfaceVal, name string, args ...Value) Value {
+	if recv.T == nil {
+		ex.goPanicf("invalid memory address or nil pointer dereference (method %s on nil interface)", name)
+	}
+	sel := ex.P.Prog.MethodSets.MethodSet(recv.T).Lookup(nil, name)
+	if sel == nil {
+		ex.internal("no exported method %s on %s", name, recv.T)
+	}
+	fn := ex.P.Prog.MethodValue(sel)
+	return ex.callFunction(ex.curFrame, fn, append([]Value{recv.V}, args...), nil, nil)
 }
 
 func registerStubs(p *Program) {
@@ -198,6 +212,16 @@ func registerStubs(p *Program) {
 	opaque := types.NewNamed(types.NewTypeName(0, nil, "verif.opaqueReflectType", nil), types.Typ[types.Int], nil)
 	p.stub("internal/reflectlite.TypeOf", func(ex *Exec, a []Value) Value { return IfaceVal{T: opaque, V: BV(0, 64)} })
 	p.nativeMethods[nativeKey{opaque.String(), "Elem"}] = func(ex *Exec, recv IfaceVal, args []Value) Value { return recv }
+
+	// net/http.Error: recorded through the writer's own WriteHeader and Write
+	p.stub("net/http.Error", func(ex *Exec, a []Value) Value {
+		w := a[0].(IfaceVal)
+		ex.InvokeMethod(w, "WriteHeader", a[2])
+		msg := a[1].(*StrVal)
+		nb := append(append([]*Term{}, msg.B...), BV('\n', 8))
+		ex.InvokeMethod(w, "Write", ex.bytesToSlice(nb))
+		return nil
+	})
 
 	registerSyncStubs(p)
 	registerTimeStubs(p)
